@@ -13256,7 +13256,9 @@ class TensorDictBase(MutableMapping):
             ...     td.update_({"a": 0})  # No storage is added, moved or removed
             >>> assert not td.is_locked
         """
-        if self.is_locked:
+        # the stored flag, not the derived state of a lazy stack whose members were each
+        # locked on their own: an explicit lock_() must always register the lock graph
+        if self._is_locked:
             return self
         is_comp = is_compiling()
         if is_comp:
